@@ -16,6 +16,109 @@ from .emitmodel import CONV, ESC, EmitModel, holes_ctx
 ADD = "self._add_to_imports"
 
 
+def _norm_key(lam: ast.Lambda, id_forms: tuple[str, ...], alias_forms: tuple[str, ...]) -> tuple[str, ...]:
+    """Sort key as a tuple of components over ID, alias components dropped."""
+    arg = lam.args.args[0].arg
+    body = lam.body
+    comps = body.elts if isinstance(body, ast.Tuple) else [body]
+    out = []
+    for c in comps:
+        t = ast.unparse(c)
+        for f in alias_forms:
+            t = t.replace(f.format(a=arg), "ALIAS")
+        for f in id_forms:
+            t = t.replace(f.format(a=arg), "ID")
+        if "ALIAS" in t and "ID" not in t:
+            continue
+        out.append(t)
+    return tuple(out)
+
+
+def move_import_agreement(ctx: Ctx, col: Collector) -> None:
+    from ..core.ctx import GHELPER, VISITOR
+    repo = ctx.repo
+    RULE = "C11.MOVE-IMPORT-AGREE"
+    mfi = repo.function(GEN, f"{GENCLS}._has_node_shorter_reexport")
+    sfi = repo.function(GHELPER, "_get_shortest_public_reexport")
+    col.touched(mfi)
+    col.touched(sfi)
+
+    def argmin_loop(fi, over_pred):
+        for n in ast.walk(fi.node):
+            if isinstance(n, ast.For) and over_pred(n.iter):
+                cmps = [c for c in ast.walk(n) if isinstance(c, ast.Compare) and len(c.ops) == 1 and isinstance(c.ops[0], (ast.Lt, ast.LtE, ast.Gt, ast.GtE)) and "len(" in ast.unparse(c)]
+                return n, cmps
+        return None, []
+    mloop, mcmps = argmin_loop(mfi, lambda it: "reexported_by" in ast.unparse(it))
+    sloop, scmps = argmin_loop(sfi, lambda it: "module_ids" in ast.unparse(it))
+    if mloop is None or sloop is None or len(mcmps) != 1 or len(scmps) != 1:
+        raise AnalysisError("the two shortest-re-export selections were not found (loop over node.reexported_by / over module_ids with one depth comparison)")
+    # (1) both keep the first entry of minimal depth (strict comparison)
+    for label, fi, c in (("move", mfi, mcmps[0]), ("import", sfi, scmps[0])):
+        strict = isinstance(c.ops[0], (ast.Lt, ast.Gt))
+        (col.ok if strict else col.bad)(RULE, f"{fi.module}::{fi.qualname}::first-of-minimal-depth", repo.loc(fi.module, c), f"`{ast.unparse(c)[:70]}`",
+                                        *([] if strict else [f"{fi.qualname} replaces its candidate on equal depth (`{ast.unparse(c)[:60]}`): among re-exporting packages of the same depth it keeps the last one "
+                                                             f"while the other selection keeps the first; the declaration is declared in one package and imported from another"]))
+    # (2) both walk their candidates in the same order
+    skey = None
+    if isinstance(sloop.iter, ast.Call) and getattr(sloop.iter.func, "id", "") == "sorted":
+        lam = next((k.value for k in sloop.iter.keywords if k.arg == "key" and isinstance(k.value, ast.Lambda)), None)
+        skey = _norm_key(lam, ("{a}[0]",), ("{a}[1]",)) if lam else ("ID", "ALIAS")
+    mkeys = []
+    vm = repo.module(VISITOR)
+    for fi in vm.functions.values():
+        for n in ast.walk(fi.node):
+            lam = None
+            if isinstance(n, ast.Call) and isinstance(n.func, ast.Attribute) and n.func.attr == "sort" and "reexported_by" in ast.unparse(n.func.value):
+                lam = next((k.value for k in n.keywords if k.arg == "key" and isinstance(k.value, ast.Lambda)), None)
+                mkeys.append((fi, n, _norm_key(lam, ("{a}.id",), ()) if lam else ("?",)))
+            elif isinstance(n, ast.Call) and getattr(n.func, "id", "") == "sorted" and n.args and "reexported_by" in ast.unparse(n.args[0]):
+                lam = next((k.value for k in n.keywords if k.arg == "key" and isinstance(k.value, ast.Lambda)), None)
+                mkeys.append((fi, n, _norm_key(lam, ("{a}.id",), ()) if lam else ("?",)))
+    if not mkeys or skey is None:
+        raise AnalysisError("the order of node.reexported_by / of the import candidates is not established by a sort with a key")
+    # (3) the import is redirected to a re-exporting package only when the declaration is moved there: the move needs a strictly shorter path
+    afi = repo.function(GEN, f"{GENCLS}._add_to_imports")
+    col.touched(afi)
+    redirects = [n for n in ast.walk(afi.node) if isinstance(n, ast.If) and any(isinstance(x, ast.Assign) and "shortest_qname" in ast.unparse(x.value) for x in n.body)]
+    if len(redirects) != 1:
+        raise AnalysisError(f"{len(redirects)} redirections of an import to the shortest re-export found in _add_to_imports, 1 expected")
+    depth_tested = any(isinstance(c, ast.Compare) and "len(" in ast.unparse(c) for c in ast.walk(redirects[0].test))
+    (col.ok if depth_tested else col.bad)(RULE, f"{GEN}::{GENCLS}._add_to_imports::redirect-only-if-shorter", repo.loc(GEN, redirects[0]), f"`if {ast.unparse(redirects[0].test)[:60]}:`",
+                                          *([] if depth_tested else ["an import is redirected to the shortest re-exporting package whenever there is one, while the declaration is only moved to a package whose path is "
+                                                                     "strictly shorter than its module's: `mypkg/api/__init__.py: from ..impl import Thing` keeps `class Thing` in `mypkg.impl` but other stubs say "
+                                                                     "`from mypkg.api import Thing`"]))
+    # (4) the same kinds of declarations are moved and redirected
+    redirected = set()
+    for n in ast.walk(afi.node):
+        if isinstance(n, ast.For) and any(x is redirects[0] for x in ast.walk(n)):
+            redirected |= {k for k in ("classes", "enums", "functions") if f"self.api.{k}" in ast.unparse(n.iter)}
+    moved = set()
+    gm = repo.module(GEN)
+    for fi in gm.functions.values():
+        for n in ast.walk(fi.node):
+            if isinstance(n, ast.Call) and ast.unparse(n.func) == "self._has_node_shorter_reexport":
+                # the emitters decide for the declaration they are about to render
+                moved |= {k for k, pat in (("classes", "_create_class_string"), ("enums", "_create_enum_string"), ("functions", "_create_function_string")) if fi.qualname.endswith(pat)}
+    only_redirected = sorted(redirected - moved)
+    (col.ok if not only_redirected else col.bad)(RULE, f"{GEN}::{GENCLS}._add_to_imports::kinds-moved-and-redirected", repo.loc(GEN, afi.node), f"moved: {sorted(moved)}; imports redirected for: {sorted(redirected)}",
+                                                 *([] if not only_redirected else [f"imports of {only_redirected} are redirected to the re-exporting package although {only_redirected} are never moved there: "
+                                                                                   f"`mypkg/__init__.py: from .colors import Color` (an Enum) keeps `enum Color` in `mypkg.colors` but other stubs say `from mypkg import Color`"]))
+    # (5) both selections choose among the same candidates
+    same_source = "reexported_by" in ast.unparse(sfi.node) or any("reexported_by" in ast.unparse(a) for n in ast.walk(afi.node) if isinstance(n, ast.Call) and getattr(n.func, "id", "") == "_get_shortest_public_reexport"
+                                                                  for a in list(n.args) + [k.value for k in n.keywords])
+    (col.ok if same_source else col.bad)(RULE, f"{GHELPER}::_get_shortest_public_reexport::same-candidates", repo.loc(GHELPER, sfi.node),
+                                         "the import candidates are the declaration's own re-exporters" if same_source else "move: node.reexported_by (path-based look-up of the qualified name); import: name matching over api.reexport_map",
+                                         *([] if same_source else ["the package a declaration is moved to is chosen among `node.reexported_by` (re-export keys found along its qualified name), the package its imports name among all "
+                                                                   "re-export keys that match its *name*: for a chained re-export (`mypkg/__init__: from .sub import Widget`, `mypkg/sub/__init__: from ._widget import Widget`) "
+                                                                   "the class is declared in `mypkg.sub` and imported `from mypkg import Widget`"]))
+    for fi, n, k in mkeys:
+        same = k == skey
+        (col.ok if same else col.bad)(RULE, f"{VISITOR}::{fi.qualname}::reexported_by-order", repo.loc(VISITOR, n), f"re-exporters ordered by {k}; import candidates ordered by {skey}",
+                                      *([] if same else [f"{fi.qualname} orders the re-exporting modules of a declaration by {k}, while _get_shortest_public_reexport walks its candidates ordered by {skey}: for a "
+                                                         f"declaration re-exported by two packages of the same depth the stub is written into one package and the imports name the other"]))
+
+
 def check(ctx: Ctx, col: Collector, tier: str) -> None:
     repo = ctx.repo
     col.spec("C11.REF-IMPORT", "every class name used as a type or superclass registers an import for the same class on that path",
@@ -29,7 +132,10 @@ def check(ctx: Ctx, col: Collector, tier: str) -> None:
              "and the package part of an import is a module path", "emission guards of the class loops vs. the flags the import bookkeeping consults; shape of the registered qualified name for nested classes", floor=3)
     col.spec("C11.IMPORT-PATH", "the package an import names is spelled like the package line of the stub that declares it",
              "comparison of the conversion applied to module paths at the four sites", floor=4)
+    col.spec("C11.MOVE-IMPORT-AGREE", "the package a re-exported declaration is moved to and the package its imports name are chosen by two procedures that make the same choice: "
+             "both take the first entry of minimal depth of a sequence ordered by the same key", "cross-check of the two argmin loops: comparison operator, iteration order (sort keys)", floor=3)
     col.spec("C11.IMPORT-RENDER", "every registered import becomes one import line", "shape of _create_imports_string", floor=2)
+    move_import_agreement(ctx, col)
 
     gfi = repo.function(GEN, f"{GENCLS}._create_type_string")
     col.touched(gfi)
